@@ -50,7 +50,7 @@ TKvClose  == /\ IsEvent("kv_close")
                    /\ UNCHANGED <<file, isMeta, rgext, nrg, nops>>
              /\ Ev.size = FLen(file')
 
-TAppBegin  == IsEvent("app_begin") /\ AppBegin(Ev.k, Ev.failg, Ev.failc, Ev.why) /\ pc' = "app_tail"
+TAppBegin  == IsEvent("app_begin") /\ AppBegin(Ev.k, Ev.failg, Ev.failc, Ev.why, FALSE) /\ pc' = "app_tail"
 TAppFail   == IsEvent("app_fail") /\ AppFail /\ Ev.size = FLen(file')
 TAppTail   == IsEvent("app_tail") /\ AppTail /\ pc' = "app_rgs" /\ pos' = Ev.pos
 TAppChunk  == IsEvent("app_chunk") /\ AppWriteChunk(Ev.n) /\ Ev.at = pos
